@@ -735,17 +735,28 @@ func genDims(rt *rapid.T, label string, tuple bool) string {
 	return b.String()
 }
 
+// genParam draws one parameter (schema kinds, convseq and - through genParams - the ABIs).
 func genParam(rt *rapid.T, label string, name string, depth int) T {
-	return genParamOpt(rt, label, name, depth, false)
+	return genParamOpt(rt, label, name, depth, 90)
 }
 
-// genParamOpt: with memberless set, about one tuple in twelve has NO members (an empty
+// rare is true with a probability of roughly k * 0.034 %.  (rapid's integer draws favour
+// small values and the upper bound - IntRange(0,n) == 0 comes up about one time in ten
+// whatever n is - so the test looks at a window in the upper half of a 10-bit range, which
+// is only reached by a full-width uniform draw.  Shrinking moves away from the window.)
+func rare(rt *rapid.T, label string, k int) bool {
+	v := rapid.IntRange(0, 1023).Draw(rt, label)
+	return v >= 512 && v < 512+k
+}
+
+// genParamOpt: with memberless > 0 (the k of rare: about 3 % of the top-level parameters,
+// 0.7 % of the nested ones) the parameter is a tuple with NO members (an empty
 // struct: "tuple", "tuple[]", "tuple[3][]" with an absent or an empty component list) - at
 // the top level, inside other tuples and under array dimensions alike.  Such a tuple can
 // sit at depth 0 as well (it needs no further nesting budget).
-func genParamOpt(rt *rapid.T, label string, name string, depth int, memberless bool) T {
+func genParamOpt(rt *rapid.T, label string, name string, depth int, memberless int) T {
 	t := T{Name: name}
-	if memberless && rapid.IntRange(0, 29).Draw(rt, label+".memberless") == 0 {
+	if memberless > 0 && rare(rt, label+".memberless", memberless) {
 		dims := genDims(rt, label, true)
 		t.Type = "tuple" + dims
 		if rapid.Bool().Draw(rt, label+".emptylist") {
@@ -762,7 +773,7 @@ func genParamOpt(rt *rapid.T, label string, name string, depth int, memberless b
 		n := rapid.IntRange(1, 4).Draw(rt, label+".members")
 		names := distinctNames(rt, label+".m", n, false)
 		for i, mn := range names {
-			t.Components = append(t.Components, genParamOpt(rt, fmt.Sprintf("%s.%d", label, i), mn, depth-1, memberless))
+			t.Components = append(t.Components, genParamOpt(rt, fmt.Sprintf("%s.%d", label, i), mn, depth-1, min(memberless, 20)))
 		}
 		if rapid.Bool().Draw(rt, label+".it") {
 			t.InternalType = "struct " + rapid.SampledFrom([]string{"", "Lib.", "Outer.Inner."}).Draw(rt, label+".scope") + "S" + strings.ToUpper(name) + dims
@@ -790,7 +801,7 @@ func genParams(rt *rapid.T, label string, maxN int, depth int) []T {
 	names := distinctNames(rt, label, n, true)
 	out := make([]T, 0, n)
 	for i, name := range names {
-		out = append(out, genParam(rt, fmt.Sprintf("%s.%d", label, i), name, depth))
+		out = append(out, genParamOpt(rt, fmt.Sprintf("%s.%d", label, i), name, depth, 90))
 	}
 	return out
 }
@@ -845,9 +856,40 @@ type abiStats struct {
 	tupleInTuple, tupleIn2D, tupleIn1D, anyTuple, indexed, unnamed, internal bool
 	wideTop, wideMember, escapedTop                                          bool
 	maxDepth                                                                 int
+	// member-less tuples, by where they sit (labels of the evidence histogram)
+	memberless map[string]bool
 }
 
 func (s *abiStats) visit(t T, depth int, insideTuple bool) {
+	s.visitIn(t, depth, insideTuple, "")
+}
+
+func (s *abiStats) visitIn(t T, depth int, insideTuple bool, where string) {
+	if strings.HasPrefix(t.Type, "tuple") && len(t.Components) == 0 {
+		if s.memberless == nil {
+			s.memberless = map[string]bool{}
+		}
+		s.memberless["any"] = true
+		if where != "" {
+			s.memberless[where] = true
+		}
+		if insideTuple {
+			s.memberless["nested-in-tuple"] = true
+		} else {
+			s.memberless["top-level"] = true
+		}
+		if strings.Contains(t.Type, "[") {
+			s.memberless["under-array-dimensions"] = true
+		}
+		if t.Components != nil {
+			s.memberless["components-empty-list"] = true
+		} else {
+			s.memberless["components-absent"] = true
+		}
+		if t.Indexed {
+			s.memberless["indexed"] = true
+		}
+	}
 	if t.Indexed {
 		s.indexed = true
 	}
@@ -882,18 +924,27 @@ func (s *abiStats) visit(t T, depth int, insideTuple bool) {
 			s.maxDepth = depth + 1
 		}
 		for _, c := range t.Components {
-			s.visit(c, depth+1, true)
+			s.visitIn(c, depth+1, true, where)
 		}
 	}
+}
+
+func sortedBoolKeys(m map[string]bool) []string {
+	out := make([]string, 0, len(m))
+	for k := range m {
+		out = append(out, k)
+	}
+	sort.Strings(out)
+	return out
 }
 
 func statsOf(c ABICase) (s abiStats) {
 	for _, e := range c.ABI {
 		for _, p := range e.Inputs {
-			s.visit(p, 0, false)
+			s.visitIn(p, 0, false, e.Type+"-input")
 		}
 		for _, p := range e.Outputs {
-			s.visit(p, 0, false)
+			s.visitIn(p, 0, false, e.Type+"-output")
 		}
 	}
 	return
@@ -1276,6 +1327,7 @@ func TestCheck(t *testing.T) {
 	rec := evid.Start("C20", rule)
 	defer rec.Finish()
 	rec.Assume("round-trip oracle: signature and parameter tree rendered from the generated ABI model (explicit-width types only), not from the library's parse of it")
+	rec.Assume("tuples have 0..4 members: a member-less tuple (component list absent or present and empty; about 3 % of the top-level parameters, 0.7 % of the nested ones; alone, under 1..3 array dimensions, inside other tuples, as input, output, event input - indexed or not - and error input) is spelled (), ()[], ()[3][] by the reference renderer and takes part in the helper-signature clause and in the whole round trip like every other tuple (the interface format represents it as an object schema without properties)")
 	rec.Assume("schema oracle: analyse() — generic-JSON analyser for the inconsistencies the property names (array without items; member position missing, colliding, out of range; JSON type definitely at odds with details.type at the top level); it returns 'nothing provable' for every shape it does not understand")
 	rec.Assume("not asserted: alias spellings in the stand-alone helper; preservation of internalType / stateMutability / payable / constant / anonymous; JSON type of nested members; 'integer' for address or fixed and 'number' for integer types (open readings); nil entries in a params list")
 	rec.Assume("kind convseq (histories): a \"$ref\" to another document (identifier-like, not a fragment, not the parameter's own name, not an existing file) cannot be resolved when a definition is converted on its own, so such a conversion must fail at every position of a history; names carry a per-case tag so that no two cases share a name")
@@ -1305,6 +1357,9 @@ func TestCheck(t *testing.T) {
 		add(s.wideTop, "abi:top-level-name-beyond-identifiers")
 		add(s.escapedTop, "abi:top-level-name-changed-by-URL-escaping")
 		add(s.wideMember, "abi:member-name-beyond-identifiers")
+		for _, w := range sortedBoolKeys(s.memberless) {
+			cl = append(cl, "abi:member-less-tuple:"+w)
+		}
 		seenType := map[string]bool{}
 		for _, e := range c.ABI {
 			if !seenType[e.Type] {
